@@ -583,9 +583,9 @@ Lemma consolidate_portability_directives_good s : good s (consolidate_portabilit
 Proof.
   unfold consolidate_portability_directives.
   destruct (negb _); [apply good_refl|].
-  destruct (length (cur_toks pass s)); [apply fail_panic_good|].
+  destruct (length (cur_toks pass s)); [apply fail_panic_good|]. cbv zeta.
   destruct (o_semicolon _); [|apply same_good, portability_go_same].
-  destruct n; [apply fail_panic_good|apply same_good, portability_go_same].
+  destruct (skip_trailing_comments pass s n); [apply good_refl|apply same_good, portability_go_same].
 Qed.
 
 (* the inline-comment loop of finish_logical_line *)
